@@ -573,4 +573,23 @@ def compute_atomic_sets(atomic_sets: list[set[Feature]],
          old="        json_object = to_json(self.source_model)", new="        import copy\n        json_object = copy.deepcopy(to_json(self.source_model))"),
     dict(id="silent-metrics-logger", props=["C17", "C19"], file=OPS + "fm_metrics.py", expect="silent",
          old="        self.model = cast(FeatureModel, model)\n", new="        import logging\n        logging.getLogger(__name__).debug('metrics for %s', model)\n        self.model = cast(FeatureModel, model)\n"),
+    dict(id="silent-get-features-generator", props=["C03", "C16", "C17"], file=FM, expect="silent",
+         old="""        features: list["Feature"] = []
+        if self.root is not None:
+            features.append(self.root)
+            for relation in self.get_relations():
+                features.extend(relation.children)
+        return features""",
+         new="""        def walk():
+            if self.root is not None:
+                yield self.root
+                for relation in self.get_relations():
+                    yield from relation.children
+        return list(walk())"""),
+    dict(id="silent-leaf-features-filter-builtin", props=["C16", "C17"], file=OPS + "fm_leaf_features.py", expect="silent",
+         old="    return [f for f in feature_model.get_features() if len(f.get_relations()) == 0]",
+         new="    return list(filter(lambda f: not f.get_relations(), feature_model.get_features()))"),
+    dict(id="silent-relation-mandatory-tuple", props=["C03", "C14", "C15"], file=FM, expect="silent",
+         old="        return self.card_min == 1 and self.card_max == 1 and len(self.children) == 1",
+         new="        return (self.card_min, self.card_max, len(self.children)) == (1, 1, 1)"),
 ]
